@@ -254,6 +254,10 @@ class Check:
         log(f"  NOT SHOWN: {name}: {detail[:400]}")
 
     def fail(self, key, what, data):
+        ctx = getattr(self, 'context', None)       # (text, dict): circumstances under which the following inputs are evaluated, e.g. a Config value set at run time
+        if ctx:
+            what = f"[{ctx[0]}] {what}"
+            data = dict(data, **ctx[1]) if isinstance(data, dict) else data
         self.failures.append(Failure(key, what, data))
         log(f"  FAILING INPUT [{key}]: {what}")
 
